@@ -103,6 +103,8 @@ pub struct OpRecord {
     pub post_hash: u64,
     /// description of the ghost fault that hit this call (if any)
     pub ghost: Option<String>,
+    /// lock-order edges of this call (only with harvest_edges)
+    pub edges: Vec<String>,
 }
 
 #[derive(Default)]
@@ -958,7 +960,7 @@ pub fn run_history(cfg: &HistCfg) -> HistResult {
                     pre = View::build(&world);
                 }
             });
-            res.ops.push(OpRecord { label, op: Some(op.clone()), ret: String::new(), try_timed: 0, ghost_fired: 0, post_hash: 0, ghost: None });
+            res.ops.push(OpRecord { label, op: Some(op.clone()), ret: String::new(), try_timed: 0, ghost_fired: 0, post_hash: 0, ghost: None, edges: Vec::new() });
             if ret.aborted || eng.aborting() {
                 break;
             }
@@ -970,12 +972,20 @@ pub fn run_history(cfg: &HistCfg) -> HistResult {
         let ret = exec(&world, label, &op);
         let (tt1, gf1) = eng.with_state(|st| (st.counters.try_timed, st.counters.ghost_fired));
         let fault = fault_name(&cfg.ghost, gf1 - gf0);
+        let mut op_edges: Vec<String> = Vec::new();
         if cfg.harvest_edges {
-            let nested = eng.with_state(|st| std::mem::take(&mut st.nested));
+            let (nested, published_below) = eng.with_state(|st| (std::mem::take(&mut st.nested), st.published_below()));
             passthrough(|| {
                 for (_, h, r) in &nested {
+                    // a lock created by this very call cannot be contended: no other client can reach its object yet
+                    if h.lock >= published_below || r.id >= published_below {
+                        continue;
+                    }
                     let dir = crate::conc::direction(&pre, &world, (h.lock, h.class), (r.id, r.class));
                     let e = format!("{}: {:?}-{} -> {:?}-{} [{}]", op.k.name(), h.class, crate::conc::mode_s(h.mode), r.class, crate::conc::mode_s(r.mode), dir);
+                    if !op_edges.contains(&e) {
+                        op_edges.push(e.clone());
+                    }
                     *res.edges.entry(e).or_default() += 1;
                 }
             });
@@ -1013,7 +1023,7 @@ pub fn run_history(cfg: &HistCfg) -> HistResult {
                 &|m| world.tables().model_ids.get(m).map(|h| format!("M{h}")).unwrap_or("M?".into()),
             )
         });
-        res.ops.push(OpRecord { label, op: Some(op.clone()), ret: ret_canon, try_timed: tt1 - tt0, ghost_fired: gf1 - gf0, post_hash: h, ghost: if gf1 > gf0 { run_ghost.clone() } else { None } });
+        res.ops.push(OpRecord { label, op: Some(op.clone()), ret: ret_canon, try_timed: tt1 - tt0, ghost_fired: gf1 - gf0, post_hash: h, ghost: if gf1 > gf0 { run_ghost.clone() } else { None }, edges: op_edges });
 
         let mut viols: Vec<Violation> = Vec::new();
         // ---- engine findings (C12 / C15)
@@ -1086,7 +1096,8 @@ pub fn run_history(cfg: &HistCfg) -> HistResult {
                 at: label,
             });
         }
-        let run_over = ret.aborted || eng.aborting();
+        // what a panic leaves behind is unspecified; the panic itself is the finding (C12)
+        let run_over = ret.aborted || eng.aborting() || ret.panic.is_some();
 
         if !run_over {
             passthrough(|| {
@@ -1095,7 +1106,7 @@ pub fn run_history(cfg: &HistCfg) -> HistResult {
                 let sel = &cfg.props;
                 {
                     // the reload differential runs after every successful modifying call, so that a breach is attributed to the call that made it
-                    let reload = sel.c10 && cfg.reload_every > 0 && op.k.is_writer() && !ret.is_err();
+                    let reload = sel.c10 && cfg.reload_every > 0 && (op.k.is_writer() || op.k == K::MDuplicate) && !ret.is_err();
                     let o = CheckOpts { check_c03: true, check_c04: true, check_c05: true, check_c10: true, c10_reload: reload, dfs_sample: if sel.c03 { 7 } else { 0 } };
                     for (_, ms) in &post.models {
                         for v in inv::check(ms, &ms.model, &o) {
